@@ -2,4 +2,4 @@
 # regenerate coq/_CoqProject from the directory contents (Common first); never hand-edit it
 # (Lexer/ = the byte-level lexer model shared by C01 and C18)
 cd "$(dirname "$0")/../coq"
-{ echo "-Q . V"; ls Common/*.v 2>/dev/null; ls gen/*.v 2>/dev/null; ls Lexer/*.v 2>/dev/null; for d in C[0-9][0-9]*/; do ls ${d}*.v 2>/dev/null; done; } > _CoqProject
+{ echo "-Q . V"; ls Common/*.v 2>/dev/null; ls gen/*.v 2>/dev/null; ls Lexer/*.v 2>/dev/null; ls Stmt/*.v 2>/dev/null; for d in C[0-9][0-9]*/; do ls ${d}*.v 2>/dev/null; done; } > _CoqProject
